@@ -100,9 +100,15 @@ pub fn oracle(c: &PuCtx, rec: &mut Rec) {
             }
             let minted = s1 - s0;
             let locked_now = c.delta(PM, lp);
-            let dest = if lock.is_some() { FM } else { recv.unwrap_or(*u) };
+            let dest = if lock.is_some() { FM } else { recv.filter(|r| *r != 99).unwrap_or(*u) }; // 99 = not an address: falls back to the sender
             let to_dest = c.delta(dest, lp);
-            if to_dest + locked_now != minted as i128 || (s0 > 0 && locked_now != 0) {
+            let bad = if dest == PM {
+                // the depositor asked for the LP to be minted to the pool manager itself
+                to_dest != minted as i128
+            } else {
+                to_dest + locked_now != minted as i128 || (s0 > 0 && locked_now != 0)
+            };
+            if bad {
                 rec.viol("C02_mint_destination", format!("minted {minted}: destination #{dest} got {to_dest}, pool manager {locked_now}"));
             }
             let r0: Vec<u128> = pre_p.pool_info.assets.iter().map(|a| a.amount.u128()).collect();
